@@ -49,6 +49,8 @@ type verifFS struct {
 	lastExpect uint32
 	faultClose bool // Close may fail too (C05/C15); otherwise it never does
 	failAll    bool // every backend call fails (set per step by a harness)
+	onEnter    func() // called at the start of every File method (sequential mode)
+	useWGAall  bool   // every node implements WalkGetAttr
 	sched      bool   // emit be-enter/be-exit events (schedule layer)
 	curReq     string // tag of the request the running thread serves
 	walkMode   FileMode // if non-zero, the mode reported for walked nodes
@@ -177,6 +179,9 @@ func (fs *verifFS) anError() error {
 func (n *verifNode) rec(c verifCall) func() {
 	c.node = n.id
 	if !n.fs.sched {
+		if n.fs.onEnter != nil {
+			n.fs.onEnter()
+		}
 		if n.closed > 0 && c.op != "Close" {
 			n.uac = true
 		}
@@ -271,7 +276,7 @@ func (n *verifNode) Walk(names []string) ([]QID, File, error) {
 }
 
 func (n *verifNode) WalkGetAttr(names []string) ([]QID, File, AttrMask, Attr, error) {
-	if !n.useWGA {
+	if !n.useWGA && !n.fs.useWGAall {
 		return nil, nil, AttrMask{}, Attr{}, linux.ENOSYS
 	}
 	defer n.rec(verifCall{op: "WalkGetAttr", s: append([]string(nil), names...), npath: len(names)})()
